@@ -4,6 +4,7 @@
 From Coq Require Import ZArith List Ascii String Bool PrimFloat FloatOps.
 From Verif Require Import Base.Result Base.Str Base.Sexp Base.Float Model.Tokenizer Model.NumExpr Spec.Arith
   Corr.Common.
+From Verif Require Proofs.C12_CmpAt.
 Import ListNotations.
 Open Scope string_scope.
 Open Scope list_scope.
@@ -168,11 +169,26 @@ Definition spec_ok (c : case) : bool :=
       obs_eqb evobs_eqb want (o_eval o) && text_ok (c_digits c) (asg_name a) (AFl n args) rhs o
   end.
 
+(* the hypothesis of theorem C12_cmp_fixed_at, computed by the kernel on the operands of this comparison (finite
+   operands, eps >= 0): the instances of the IEEE facts the proof uses hold here *)
+Definition ieee_side_ok (c : case) : bool :=
+  match c_x c with
+  | XCmp _ l r =>
+      match aeval (val_of (c_state c)) l, aeval (val_of (c_state c)) r with
+      | Some x, Some y =>
+          if f_is_finite x && f_is_finite y && PrimFloat.leb 0%float (c_eps c)
+          then Proofs.C12_CmpAt.ieee_ok_at (c_eps c) x y else true
+      | _, _ => true
+      end
+  | _ => true
+  end.
+
 Definition judge (c : case) : verdict :=
-  {| v_agree := obs_eqb iobs_eqb (model_obs c) (match c_obs c with Returned o => Returned (dec_obs o) | Raised => Raised end);
+  {| v_agree := obs_eqb iobs_eqb (model_obs c) (match c_obs c with Returned o => Returned (dec_obs o) | Raised => Raised end)
+                && ieee_side_ok c;
      v_ok := spec_ok c;
      v_known := false |}.     (* no open finding class: D20 and D08 are repaired *)
 
 Definition run (cases : list case) : string := summary judge cases.
 
-Definition explain (c : case) := (model_obs c, spec_ok c).
+Definition explain (c : case) := (model_obs c, spec_ok c, ieee_side_ok c).
